@@ -16,9 +16,10 @@ RULE = ("A generated site (depth <= 3; real dirs, gophermaps, mbox, Maildir, HTM
         "equal the set the site description says exists. Non-trivial: a followed link whose selector has a byte "
         "outside [A-Za-z0-9/._-], is virtual (|...) or crosses into a ZIP; distinct = (site hash, protocol).")
 ASSUMPTIONS = [
-    "reserved top-level namespaces (URL:, /wap, one-character names with the full list) and the virtual-argument "
-    "separators ? and | in the paths of mailboxes/scripts are not generated as names (see DESIGN.md; the latter is a "
-    "recorded finding exercised by a dedicated flavour of this check)",
+    "reserved top-level namespaces (URL:, /wap, one-character names with the full list) are not generated as names; the "
+    "virtual-argument separators ? and | in the paths of mailboxes/scripts are generated in a dedicated flavour only, "
+    "where the server does not recognise such objects as mailboxes (documented separator) - there only the link-closure "
+    "clauses are asserted, not the reached-set equality",
     "gophermap links point at existing objects (author errors are not generated)",
 ]
 
@@ -150,7 +151,7 @@ def check_case(case, ctx):
             got = set(reached) - {b"/"}
             missing = sorted(set(want) - got)
             extra = sorted(got - set(want))
-            if not ff:
+            if not ff and not vprob:
                 if missing:
                     ff.append(Fail("unreached:%s:%s" % (fam, want[missing[0]]["what"].split(":")[0]),
                                    "%s crawl never reaches %r (%s) although it exists" % (form, missing[0], want[missing[0]]["what"])))
@@ -164,8 +165,6 @@ def check_case(case, ctx):
                         if v[1] != world.b(o["content"]):
                             ff.append(Fail("content:%s" % fam, "%s: document %r arrives with different bytes" % (form, s)))
                             break
-            if vprob:
-                ff = [Fail("virtual-sep:" + f.sig.split(":")[0], f.msg, f.detail) for f in ff]
             fails += ff
         ctx.sample({"site": items, "forms": forms}, cls="%s%s" % (full, case["gopher_ok"]))
         seen, out = set(), []
